@@ -81,7 +81,7 @@ CHECKS.update({
 
 CHECKS.update({
  "C16": dict(engine="c16", category="model_checking", design_ref="§8 C16",
-   technique="TLA+ model of one RPC server connection (spec/Rpc.tla) checked exhaustively by TLC + TLA+ trace validation (spec/TraceRpc.tla) of recorded executions of the real RPCServerConnection",
+   technique="TLA+ model of one RPC server connection (spec/Rpc.tla) checked exhaustively by TLC + TLA+ trace validation (spec/TraceRpc.tla) of recorded executions of the real RPCServerConnection; RpcPair.tla: end-to-end trace validation of the real SocketRPCServer with real async and sync clients over Unix sockets (pairing and outcome class of every call, rogue and vanishing peers)",
    text="Rpc.tla (3 calls; every call kind incl. unknown/hidden procedures, bad arguments, garbage, oversize header, close sentinel; every fragmentation into header/body units; every completion order; EOF at every unit boundary) is model checked exhaustively for at-most/exactly-one reply, own call id, error class, exposure, applied-despite-disconnect and server survival. The real rpc.RPCServerConnection is then driven over a hand-fed StreamReader along seeded scenarios from the same space with byte-level cuts, and every recorded execution must be a behaviour of Rpc.tla (silent parse/teardown steps allowed) with all invariants evaluated in every state; replies are classified with the real client decoder.",
    note="Trusted base: TLC 1.8; the driver in checks/c16.py (fed StreamReader, recording writer, idle-hook loop). Client classes (SocketAsyncRPCClient/SocketSyncRPCClient) are exercised only through _decode_response; several simultaneous connections are not modelled."),
  "C18": dict(engine="c18", category="model_checking", design_ref="§8 C18",
